@@ -431,7 +431,7 @@ class FilesInfoWrite(Contract):
         """(id, count, emptystream-record, dummy-record, names, times, attributes, end) as eight segments"""
         names = ["id", "count", "es", "pad", "names", "times", "attrs", "end"]
         if getattr(c, "concrete", False):
-            return c.ghost_segments(file, names, concrete=self._parse(n))
+            return c.ghost_segments(file, names, concrete=self._parse(n, len(c.bound["self_"].emptyfiles)))
         eng = c.eng
         if eng.ctx_mode == "assume":
             return c.ghost_segments(file, names)
@@ -450,7 +450,7 @@ class FilesInfoWrite(Contract):
         return [head[0][1], head[1][1], mk(es), mk(pad)] + [sg for _, sg in tail]
 
     @staticmethod
-    def _parse(n):
+    def _parse(n, ne=0):
         def parse(app):
             try:
                 p = 0
@@ -465,7 +465,7 @@ class FilesInfoWrite(Contract):
                     es = app[p:p + 1 + l2 + sz]
                     p += len(es)
                 elif app[p:p + 1] == b"\x0f":
-                    es = app[p:p + 1 + (n + 7) // 8]
+                    es = app[p:p + 1 + (ne + 7) // 8]
                     p += len(es)
                 pad = b""
                 if app[p:p + 1] == b"\x19":
